@@ -195,3 +195,31 @@ package jobqueuecontroller
 //@ func IndependentReconciler.MaxRequeues
 //@   params r
 //@   ensures [C20] unlimited-requeues: result == -1
+
+// ---- informer.go: every Job event is routed to exactly one of the two queues (C06 "nothing stuck", C07 "due Jobs start") ------
+// A Job whose owner lookup resolves a JobConfig (jobconfig.ownerOf, verified in pkg/execution/util/jobconfig) re-queues that
+// JobConfig's key on the per-JobConfig queue; a Job without any controller reference re-queues its own key on the
+// independent queue; nothing else is queued.
+//@ func InformerWorker.enqueueObject
+//@   params w, obj, queue
+//@   tags C06, C07
+//@   requires w != nil && queue != nil
+//@   modifies addN, addKey, addQ
+//@   ensures [C06] jobconfig-key-on-the-given-queue: typeis(obj, *execution.JobConfig) ==> addN == old(addN) + 1 && addQ[old(addN)] == iface(queue)
+//@        && addKey[old(addN)] == iface(nsname(unbox(obj, *execution.JobConfig).Namespace, unbox(obj, *execution.JobConfig).Name))
+//@   ensures [C07] job-key-on-the-given-queue: typeis(obj, *execution.Job) ==> addN == old(addN) + 1 && addQ[old(addN)] == iface(queue)
+//@        && addKey[old(addN)] == iface(nsname(unbox(obj, *execution.Job).Namespace, unbox(obj, *execution.Job).Name))
+//@   ensures [C06,C07] at-most-one: addN == old(addN) || addN == old(addN) + 1
+
+//@ func InformerWorker.handleJob
+//@   params w, obj
+//@   tags C06, C07
+//@   requires w != nil && w.Context != nil && w.jobConfigQueue != nil && w.independentQueue != nil
+//@   modifies addN, addKey, addQ
+//@   ensures [C06] owned-job-event-requeues-the-jobconfig: typeis(obj, *execution.Job) && jobconfig.ownerOf(unbox(obj, *execution.Job), unbox(obj, *execution.Job).Namespace) != nil ==>
+//@        addN == old(addN) + 1 && addQ[old(addN)] == iface(w.jobConfigQueue)
+//@        && addKey[old(addN)] == iface(nsname(jobconfig.ownerOf(unbox(obj, *execution.Job), unbox(obj, *execution.Job).Namespace).Namespace, jobconfig.ownerOf(unbox(obj, *execution.Job), unbox(obj, *execution.Job).Namespace).Name))
+//@   ensures [C07] independent-job-event-requeues-the-job: typeis(obj, *execution.Job) && jobconfig.noControllerRef(unbox(obj, *execution.Job)) ==>
+//@        addN == old(addN) + 1 && addQ[old(addN)] == iface(w.independentQueue)
+//@        && addKey[old(addN)] == iface(nsname(unbox(obj, *execution.Job).Namespace, unbox(obj, *execution.Job).Name))
+//@   ensures [C06,C07] at-most-one: addN == old(addN) || addN == old(addN) + 1
